@@ -189,7 +189,7 @@ func handleAppend(params internal.HandlerFuncParams) ([]byte, error) {
 	value := params.Command[2]
 	if !keyExists {
 		if err = params.SetValues(params.Context, map[string]interface{}{
-			key: internal.AdaptType(value),
+			key: internal.AdaptValue(value),
 		}); err != nil {
 			return nil, err
 		}
@@ -201,7 +201,7 @@ func handleAppend(params internal.HandlerFuncParams) ([]byte, error) {
 	}
 	newValue := fmt.Sprintf("%v%s", currentValue, value)
 	if err = params.SetValues(params.Context, map[string]interface{}{
-		key: internal.AdaptType(newValue),
+		key: internal.AdaptValue(newValue),
 	}); err != nil {
 		return nil, err
 	}
